@@ -229,6 +229,11 @@ def run_generic(module_names, qname, obligation, model):
         env2.setdefault('result', outcome[1])
         try:
             ok = _call(clause, env2)
+        except (IndexError, KeyError, StopIteration) as e:
+            # the clause looks up something that the real run did not produce (an expected event / element is
+            # missing): the clause does not hold, as in the symbolic evaluation
+            print('clause raised', repr(e), '-- what it refers to does not exist in the real run')
+            ok = False
         except Exception as e:
             print('clause raised', repr(e))
             print('the clause cannot be evaluated natively on the rebuilt input (stubs answer with defaults): '
